@@ -553,6 +553,36 @@ def topfree_volume(bits, keep=14, variant="default"):
     return ("fat%d-max-topfree" % bits, head, 512, keep)
 
 
+def top_fill_sessions(bits, variant="default"):
+    """library-formatted FAT12 / FAT16 volumes with exactly the maximal cluster count of their width (4084 / 65524), filled to the
+    very top by ordinary writes (no pre-marked table): chains run through the cluster numbers 0xFF0..0xFF5 / 0xFFF0..0xFFF5 and
+    END in the highest one; then the walks that matter - remove, truncate inside / at a cluster boundary, seek to the end and
+    append on a fresh handle after low clusters were freed, re-fill after delete-all.  Returns a list of scripts."""
+    clusters = 4084 if bits == 12 else 65524
+    r = vlib.sectors_for_clusters(512, 512, clusters, clusters + 30, variant=variant)
+    if r is None or r[1] != bits:
+        return []
+    ts = r[0]
+    head = ["dev %d 0" % (ts * 512), "wlog 0", "format 512 %d 512 - - - - - -" % ts, "pages", "wlog 1", "mount 1 0 lossy"]
+    h = hexs
+    full = clusters * 512
+    a = head + ["stats", "create_file 0 %s 1" % h("small first.bin"), "write_pat 1 1024 1", "drop_file 1",
+                "create_file 0 %s 2" % h("big fills the rest.bin"), "write_pat 2 %d 2" % (full - 1024), "write_pat 2 10 9", "drop_file 2", "stats",
+                "remove 0 %s" % h("small first.bin"), "stats",
+                "open_file 0 %s 3" % h("big fills the rest.bin"), "seek 3 end 0", "write_pat 3 700 3", "seek 3 end -1500", "read 3 1500",
+                "extents 3", "drop_file 3", "stats", "list 0",
+                "open_file 0 %s 4" % h("big fills the rest.bin"), "seek 4 start %d" % (full - 1024 - 512 * 3 - 7), "truncate 4", "drop_file 4", "stats",
+                "remove 0 %s" % h("big fills the rest.bin"), "stats", "list 0",
+                "create_file 0 %s 5" % h("second fill.bin"), "write_pat 5 %d 4" % full, "drop_file 5", "stats",
+                "open_file 0 %s 6" % h("second fill.bin"), "seek 6 start 512", "truncate 6", "drop_file 6", "stats",
+                "remove 0 %s" % h("second fill.bin"), "stats", "drop_all", "unmount"]
+    b = head + ["create_file 0 %s 1" % h("only.bin"), "write_pat 1 %d 5" % (full + 5), "drop_file 1", "stats",
+                "open_file 0 %s 2" % h("only.bin"), "seek 2 start %d" % (full - 512 * 5), "truncate 2", "seek 2 end 0", "write_pat 2 %d 6" % (512 * 5),
+                "seek 2 start %d" % (full - 600), "read 2 600", "drop_file 2", "stats",
+                "remove 0 %s" % h("only.bin"), "stats", "list 0", "drop_all", "unmount"]
+    return [a, b]
+
+
 def fat32_high_cluster_session(rng):
     """FAT32 with more than 65536 clusters and the next-free hint of the information sector beyond cluster 0xFFFF: first
     clusters of new files and directories need the high word of the entry; truncation to nothing, re-allocation after the hint
